@@ -26,6 +26,7 @@ import Ymq.Lemmas.CrtLemmas
 import Ymq.Lemmas.PolyDft
 import Ymq.Lemmas.PolyZMod
 import Ymq.Lemmas.PolyMiddle
+import Ymq.Lemmas.PolyTree
 
 namespace Ymq.C10
 open Ymq.PolySpec
@@ -579,5 +580,36 @@ example : divModXnPub (Ctx.new 1) (natOps 7) [1, 0, 0, 0] [1, 1, 1, 1] = some [1
     invModXn (Ctx.new 1) (natOps 7) FUEL [1, 1, 1, 1] 24 = some [1, 6, 0, 0] := by decide
 
 end Series
+
+/-! ## Product tree: `_product_tree`, `from_roots` -/
+
+section Trees
+open Ymq.PolyMul Polynomial
+
+/-- **`Poly::_product_tree`**: for `|roots| ≥ 1` and `n = 2^bitlen(|roots| - 1) ≤ 2^62` leaves the model
+reaches no panic site; the `logn + 1` layers form a chain (`Chain`: every node of layer `i + 1` is the
+product of its two children in layer `i`; nodes of layer `i` are monic of degree `2^i`, given by
+their low coefficients), built by the three merge forms of the code (`i = 1`, `i = 2` written out,
+`_longmul` of the low parts plus `x^d(a + b)` above), and the top node is `x^(n-|roots|)·∏(x - r_i)`. -/
+theorem product_tree_spec {α R : Type} [CommRing R] {o : Ops α} {φ : α → R} (h : Hom o φ) (c : Ctx)
+    (roots : List α) (h1 : 1 ≤ roots.length) (h62 : Ymq.Checked.bitlen (roots.length - 1) ≤ 62)
+    (hfit : Fits c (2 ^ Ymq.Checked.bitlen (roots.length - 1))) :
+    ∃ layers, productTree c o roots = some layers ∧
+      layers.length = Ymq.Checked.bitlen (roots.length - 1) + 1 ∧ Chain φ 1 layers ∧
+      ∃ top, layers.getLast? = some [top] ∧ top.length = 2 ^ Ymq.Checked.bitlen (roots.length - 1) ∧
+        mon φ top = rootsPoly φ roots * X ^ (2 ^ Ymq.Checked.bitlen (roots.length - 1) - roots.length) :=
+  productTree_spec h c roots h1 h62 hfit
+
+/-- **`Poly::from_roots(roots) = ∏ (x - r_i)`** (`rootsPoly`), `|roots| + 1` coefficients. -/
+theorem from_roots_spec {α R : Type} [CommRing R] {o : Ops α} {φ : α → R} (h : Hom o φ) (c : Ctx)
+    (roots : List α) (h1 : 1 ≤ roots.length) (h62 : Ymq.Checked.bitlen (roots.length - 1) ≤ 62)
+    (hfit : Fits c (2 ^ Ymq.Checked.bitlen (roots.length - 1))) :
+    ∃ z, fromRoots c o roots = some z ∧ z.length = roots.length + 1 ∧
+      poly (z.map φ) = (roots.map fun r => X - C (φ r)).prod :=
+  fromRoots_spec h c roots h1 h62 hfit
+
+example : fromRoots (Ctx.new 1) (natOps 101) [1, 2, 3] = some [95, 11, 95, 1] := by decide
+
+end Trees
 
 end Ymq.C10
